@@ -283,10 +283,11 @@ type c11Params struct {
 }
 
 func workerDir(w *run.W) string {
-	d := filepath.Join(os.TempDir(), fmt.Sprintf("vw-%d", os.Getpid()))
-	if st, err := os.Stat("/dev/shm"); err == nil && st.IsDir() {
-		d = filepath.Join("/dev/shm", fmt.Sprintf("vw-%d", os.Getpid()))
+	base := os.Getenv("VERIF_TMP")
+	if base == "" {
+		base = os.TempDir()
 	}
+	d := filepath.Join(base, fmt.Sprintf("vw-%d", os.Getpid()))
 	os.MkdirAll(d, 0o755)
 	return d
 }
